@@ -210,7 +210,10 @@ def _wire_parts(body, boundary):
     delim = b'--' + boundary
     pos, out = 0, []
     while True:
+        # RFC 2046: the line break before a delimiter belongs to the delimiter, not to the part before it - after a part it is
+        # required (a part that ends with a line break of its own is followed by a second one); before the first it is optional
         if body[pos:pos + 2] == b'\r\n': pos += 2
+        elif out: return f'part {len(out) - 1} (labelled {out[-1][0]}-{out[-1][1]}) is not followed by CRLF and the delimiter at offset {pos}: {body[pos:pos + 30]!r}'
         if body[pos:pos + len(delim)] != delim: return f'no delimiter at offset {pos}: {body[pos:pos + 40]!r}'
         pos += len(delim)
         if pos == len(body) or body[pos:] in (b'--', b'--\r\n', b'\r\n'): return out
@@ -258,62 +261,113 @@ def wire_part(res, rng, tier):
         # every 2-range split of a short prefix: a boundary at every byte offset (inside every multi-byte character)
         for cut in range(1, min(L, 40)):
             add(name, f'bytes=0-{cut - 1},{cut}-{min(L - 1, cut + 6)}')
-    results = K.run_batches([(tree, cases)], with_model=True)
-    for (c, r, il, ml), (name, header, method) in zip(results, metas):
+    from vlib import gen_c03 as X
+    batches = [(tree, cases, [dict(data=files[name], header=header, method=method, level='std', kind='base') for (name, header, method) in metas])]
+    batches += X.wire_batches(rng.fork('audit'), tier, S, K)
+    results = K.run_batches([(t, cs) for t, cs, _ in batches], with_model=True)
+    allmetas = [m for _, _, ms in batches for m in ms]
+    for (c, r, il, ml), meta in zip(results, allmetas):
         res.evaluations += 1; res.programs += 1
         res.distinct.add(hash(('wire', c.entry, c.raw)))
         if il != ml: res.disagree(c.line[:300], il[:300], (ml or '')[:300], 'Range / Response.generate_response on the wire')
         if r['head'].startswith(('panic', 'abort')): continue      # C04's finding
         resp, why = K.parse_resp(r['writes'][0] if r['writes'] else b'')
         if resp is None: continue                                    # framing: C05
-        data = files[name]; L = len(data)
-        want = strict_ranges(header, L)
-        res.count(f'wire {("multi" if want and len(want) > 1 else "single")} status {resp["status"]}')
-        if want is None or not want: continue     # malformed / unsatisfiable: the codec part judges 416-or-clamped
-        if resp['status'] != 206:
-            res.fail('wire-not-206', c.line[:300], f'status {resp["status"]}', None, f'C03: Range {header!r} lies inside {name} ({L} bytes) but the answer is {resp["status"]}'); continue
-        hd = {n.lower(): v for n, v in resp['headers']}
-        if len(want) == 1:
-            a, b = want[0]
-            if hd.get('content-range', '').strip() != f'bytes {a}-{b}/{L}' or resp['body'] != data[a:b + 1] or hd.get('content-length', '').strip() != str(b - a + 1):
-                res.fail('wire-single-range', c.line[:300], f'{hd.get("content-range")} len {hd.get("content-length")} body {len(resp["body"])}', None,
-                         f'C03: {name} Range {header!r}: the wire answer is not bytes {a}-{b}/{L} with exactly those {b - a + 1} bytes')
-        else:
-            ct = hd.get('content-type', '')
-            m = re.search(r'boundary=([^;\s]+)', ct)
-            parts = _wire_parts(resp['body'], m.group(1).strip('"').encode()) if m and ct.lower().startswith('multipart/byteranges') else f'Content-Type {ct!r}'
-            if isinstance(parts, str):
-                res.fail('wire-multipart-unreadable', c.line[:300], parts[:200], None, f'C03: {name} Range {header!r}: multipart/byteranges body cannot be read: {parts[:120]}'); continue
-            got = [(a, b, size, body) for a, b, size, body in parts]
-            exp = [(a, b, L, data[a:b + 1]) for a, b in want]
-            if got != exp:
-                k = next((i for i, (g, e) in enumerate(zip(got, exp)) if g != e), min(len(got), len(exp)))
-                res.fail('wire-multipart-part', c.line[:300], f'{len(got)} parts, first difference at part {k}', None,
-                         f'C03: {name} Range {header!r}: part {k} on the wire is not bytes {exp[k][0] if k < len(exp) else "?"}-{exp[k][1] if k < len(exp) else "?"}/{L} of the file with exactly those bytes')
-            # (the multipart answer carries no Content-Length: the property asks for one on single ranges only)
+        judge_wire(res, c, resp, meta)
 
-def strict_ranges(header, L):
-    """RFC 7233 reading of `header` for a file of L bytes: list of (first, last) inside the file, [] when none is satisfiable,
-    None when the header is malformed"""
-    if not header.startswith('bytes='): return None
-    out = []
-    for sp in header[6:].split(','):
-        m = SPEC.match(sp)
-        if not m: return None
-        if m.group(1) is not None:
-            a, b = int(m.group(1)), int(m.group(2))
-            if b < a: return None
-            if a >= L: return []
-            out.append((a, min(b, L - 1)))
-        elif m.group(3) is not None:
-            a = int(m.group(3))
-            if a >= L: return []
-            out.append((a, L - 1))
-        else:
-            n = int(m.group(4))
-            if n == 0 or L == 0: return []
-            out.append((max(0, L - n), L - 1))
-    return out
+CRANGE = re.compile(r'^bytes (\d+)-(\d+)/(\d+)$')
+
+def judge_wire(res, c, resp, meta):
+    """the property's verdict on one answer as it left the server (status line, headers, body)"""
+    data, header, method, level = meta['data'], meta['header'], meta['method'], meta['level']
+    L = len(data); st = resp['status']; ln = c.line[:300]
+    hd = {n.lower(): v for n, v in resp['headers']}
+    specs = strict_specs(header)
+    slices = [inside(s, L) for s in specs] if specs is not None else None
+    allin = slices is not None and all(s is not None for s in slices)
+    res.count(f'wire {meta["kind"] or "base"} {"inside" if allin else "outside/malformed"} -> {st}')
+    what = f'C03: Range {header[:80]!r} on a file of {L} bytes ({c.raw[:60]!r})'
+    def carried():
+        """what a 206 answer carries: [(first, last, size after the slash, bytes)] or a string saying why it cannot be read"""
+        ct = hd.get('content-type', '')
+        if ct.lower().startswith('multipart/byteranges'):
+            m = re.search(r'boundary=([^;\s]+)', ct)
+            return _wire_parts(resp['body'], m.group(1).strip('"').encode()) if m else f'Content-Type {ct!r}'
+        m = CRANGE.match(hd.get('content-range', '').strip())
+        if not m: return f'Content-Range {hd.get("content-range")!r}'
+        return [(int(m.group(1)), int(m.group(2)), int(m.group(3)), resp['body'])]
+    if method == 'OPTIONS': return          # an answer without a body and without the 206: the codec part judges its range list
+    if level == 'loose':
+        # the request around the Range value is unusual (version, line ends, blanks, repeated header): whether the header counts is
+        # not this property's business; what is sent must still never be bytes from other offsets
+        if st == 200 and method == 'GET':
+            if resp['body'] != data: res.fail('wire-200-not-the-file', ln, f'body {len(resp["body"])} bytes', None, what + ': answered 200 with something else than the whole file')
+        elif st == 206:
+            parts = carried()
+            if isinstance(parts, str): res.fail('wire-206-unreadable', ln, parts[:200], None, what + ': 206 that cannot be read: ' + parts[:120]); return
+            for (a, b, size, body) in parts:
+                if not (0 <= a <= b < L) or size != L or (method == 'GET' and body != data[a:b + 1]):
+                    res.fail('wire-bytes-from-other-offsets', ln, f'part {a}-{b}/{size}, {len(body)} bytes', None, what + f': the part labelled {a}-{b}/{size} is not that slice of the file'); return
+        return
+    if method == 'HEAD':
+        # no body to compare: the status and, for one range, the label
+        if allin:
+            if st != 206: res.fail('wire-not-206', ln, f'status {st}', None, what + f': every range lies inside the file but HEAD is answered {st}'); return
+            if len(slices) == 1 and hd.get('content-range', '').strip() != 'bytes %d-%d/%d' % (slices[0][0], slices[0][1], L):
+                res.fail('wire-single-range', ln, f'{hd.get("content-range")}', None, what + ': HEAD answer is not labelled bytes %d-%d/%d' % (slices[0][0], slices[0][1], L))
+        elif st not in (206, 416): res.fail('wire-outside-status', ln, f'status {st}', None, what + ': expected 416 or 206')
+        return
+    if allin:
+        if st != 206:
+            res.fail('wire-not-206', ln, f'status {st}', None, what + f': every range lies inside the file but the answer is {st}'); return
+        if len(slices) == 1:
+            a, b = slices[0]
+            if hd.get('content-range', '').strip() != f'bytes {a}-{b}/{L}' or resp['body'] != data[a:b + 1] or hd.get('content-length', '').strip() != str(b - a + 1):
+                res.fail('wire-single-range', ln, f'{hd.get("content-range")} len {hd.get("content-length")} body {len(resp["body"])}', None,
+                         what + f': the wire answer is not bytes {a}-{b}/{L} with exactly those {b - a + 1} bytes')
+            return
+        ct = hd.get('content-type', '')
+        parts = carried() if ct.lower().startswith('multipart/byteranges') else f'Content-Type {ct!r}'
+        if isinstance(parts, str):
+            res.fail('wire-multipart-unreadable', ln, parts[:200], None, what + f': multipart/byteranges body cannot be read: {parts[:120]}'); return
+        exp = [(a, b, L, data[a:b + 1]) for a, b in slices]
+        if parts != exp:
+            k = next((i for i, (g, e) in enumerate(zip(parts, exp)) if g != e), min(len(parts), len(exp)))
+            res.fail('wire-multipart-part', ln, f'{len(parts)} parts, first difference at part {k}', None,
+                     what + f': part {k} on the wire is not bytes {exp[k][0] if k < len(exp) else "?"}-{exp[k][1] if k < len(exp) else "?"}/{L} of the file with exactly those bytes')
+        # (the multipart answer carries no Content-Length: the property asks for one on single ranges only)
+        return
+    # malformed, or some range reaches outside the file: 416, or correctly labelled slices clamped to the file
+    if st == 416: return
+    if st != 206:
+        res.fail('wire-outside-status', ln, f'status {st}', None, what + ': expected 416 or 206'); return
+    parts = carried()
+    if isinstance(parts, str):
+        res.fail('wire-206-unreadable', ln, parts[:200], None, what + ': 206 that cannot be read: ' + parts[:120]); return
+    if not parts: res.fail('wire-206-unreadable', ln, 'no parts', None, what + ': 206 without a part'); return
+    for (a, b, size, body) in parts:
+        if not (0 <= a <= b < L):
+            res.fail('wire-label-outside-file', ln, f'part labelled {a}-{b}/{size}', None, what + f': a part is labelled {a}-{b} but the file has {L} bytes'); return
+        if size != L or body != data[a:b + 1]:
+            res.fail('wire-bytes-from-other-offsets', ln, f'part {a}-{b}/{size}, {len(body)} bytes', None, what + f': the part labelled {a}-{b}/{size} is not that slice of the file'); return
+
+def _spread(lines, meta):
+    """the same cases in another order: the lines over large generated files (the model rebuilds the file for every line) are dealt
+    out evenly among the others, so that every shard of the parallel run gets its share of them; the order of all other lines -
+    files sent in hex are grouped by content - is kept"""
+    def heavy(ln):
+        m = re.match(r'^range[a-z]+ @([0-9]+) ', ln)
+        return bool(m) and int(m.group(1)) >= 20000
+    H = [i for i, ln in enumerate(lines) if heavy(ln)]
+    if not H: return lines, meta
+    Li = [i for i, ln in enumerate(lines) if not heavy(ln)]
+    step = max(1, len(Li) // len(H))
+    order, h = [], 0
+    for k, i in enumerate(Li):
+        order.append(i)
+        if (k + 1) % step == 0 and h < len(H): order.append(H[h]); h += 1
+    order += H[h:]
+    return [lines[i] for i in order], [meta[i] for i in order]
 
 def run(res, tier, seed):
     rng = C.Rng(seed)
@@ -407,7 +461,22 @@ def run(res, tier, seed):
         ff, data = filefield(L, None if (L > 12 or rng.chance(1, 2)) else rng.below(256))
         k = 1 + i % 6
         get(ff, data, 'bytes=' + ','.join(inside_spec(L) for _ in range(k)), 1,
-            'OPTIONS' if i % 50 == 49 else 'GET', kind='all-inside')
+            'OPTIONS' if i % 50 == 49 else 'HEAD' if i % 50 == 24 else 'GET', kind='all-inside')
+
+    # 2c. classes added by the generator audit (vlib/gen_c03.py): number spellings, many ranges in one header, relations between
+    #     consecutive ranges, range lengths / starts around every block size, file lengths around them, contents a text-minded
+    #     serialiser would touch
+    from vlib import gen_c03 as X
+    arng = rng.fork('audit-codec')
+    for (f, header, has, method, kind) in X.codec_cases(arng, tier):
+        if isinstance(f, int): ff, data = filefield(f, None)
+        else: ff, data = C.hx(f), f
+        get(ff, data, header, has, method, kind=kind.split(':')[0])
+    for L in X.EXTRA_LENGTHS:
+        ff, data = filefield(L, None)
+        for s in singles(L, tier != 'quick'): get(ff, data, 'bytes=' + s, kind='single-extra-length')
+        for i in range(12 if tier == 'quick' else 200):
+            get(ff, data, 'bytes=' + ','.join(inside_spec(L) for _ in range(1 + i % 4)), 1, 'HEAD' if i % 12 == 11 else 'GET', kind='all-inside')
 
     # 3. the lower entry points (differential + slice rule): parser alone with u64-sized lengths,
     #    parse_content_range with a declared length different from the file, the symlink branch
@@ -435,6 +504,7 @@ def run(res, tier, seed):
     # a text field that is not UTF-8 is answered the same way by both sides
     lines.append('rangeget %s %s 1 %s' % (C.hx(ten), 'ff2d31', C.hx('GET'))); meta.append(('skip',))
 
+    lines, meta = _spread(lines, meta)
     impl, model = C.run_both(lines)
     _cleanup()
 
@@ -443,7 +513,14 @@ def run(res, tier, seed):
                 'numbers, 1..6 comma-separated specs with optional (ASCII and Unicode) white space, offsets from '
                 '{0,1,L-2,L-1,L,L+1,2^63,u64::MAX,u64::MAX+1,"","x","-1","1e3","+5"," 5 "}; malformed units; with and without a '
                 'Range header; GET/OPTIONS/HEAD; plus the parser alone for L up to u64::MAX, parse_content_range with a declared '
-                'length different from the file, get_content_range_list through a symlink. A case is non-trivial when the '
+                'length different from the file, get_content_range_list through a symlink. Added by the generator audit (vlib/gen_c03.py): '
+                'numbers with leading zeros / more digits than u64::MAX has, 7..2300 ranges in one header, two- and three-range headers '
+                'by the relation of a range to the one before it (same byte, adjacent, overlapping, nested, before it, one buffer further), '
+                'range lengths k*B+{-1,0,1} and starts j*B+{-1,0,1} for B = 256..32768 and 10000, file lengths around those sizes, file '
+                'contents made of line ends / blanks / BOM / NUL / the multipart delimiter; on the wire: the same bytes under 45 file '
+                'extensions, header-name spellings and look-alike neighbours, query / fragment / nested / link / index / .html targets, '
+                'HEAD and OPTIONS, the whole offset set and unit spellings (416-or-clamped judged on the wire), unusual request framing '
+                '(never-other-bytes clause only). A case is non-trivial when the '
                 'header value is non-empty; distinct = distinct protocol lines' % (lengths,))
     res.exhaustive = ('files of length 0..8: every single range-spec over the full offset set and every pair of specs over %s'
                       % ('the full offset set' if pair_full else 'the full offset set for L <= 2, the offsets {0,1,L-2,L-1,L,L+1,"","x"} (first-last, first-, -last, bare) for L = 3..8'))
